@@ -154,7 +154,9 @@ Definition c_inval (a b : ckey) : bool :=
   | 0 => k1 =? k2
   | 1 => (k1 =? k2) && (v2 <=? v1)
   | 2 => false
-  | _ => true
+  | 3 => true
+  | 4 => k2 <=? k1                       (* a snapshot: supersedes every lower key *)
+  | _ => (k1 mod 2) =? (k2 mod 2)        (* one key clears its whole group *)
   end.
 
 Global Instance cid_handler : HandlerOps cid :=
